@@ -41,26 +41,28 @@ fn validate_method(ctx: &Context, input: &DeriveInput) -> TokenStream {
                     <#tag_type>::validate_unchecked(__flatty_bytes)?;
                     <#tag_type>::from_bytes_unchecked(__flatty_bytes)
                 };
-                let variants = enum_data.variants.iter().fold(quote! {}, |accum, variant| {
+                // `DATA_MIN_SIZES` is indexed by the position of the variant, which is not the tag value
+                // when discriminants are given explicitly.
+                let variants = enum_data.variants.iter().enumerate().fold(quote! {}, |accum, (index, variant)| {
                     let items = collect_fields(&variant.fields, quote! { data });
                     let var_name = &variant.ident;
+                    let size_check = if !ctx.info.sized {
+                        quote! {
+                            if data.len() < Self::DATA_MIN_SIZES[#index] {
+                                return Err(Error {
+                                    kind: ErrorKind::InsufficientSize,
+                                    pos: Self::DATA_OFFSET,
+                                });
+                            }
+                        }
+                    } else {
+                        quote! {}
+                    };
                     quote! {
                         #accum
-                        #tag_type::#var_name => { #items }
+                        #tag_type::#var_name => { #size_check #items }
                     }
                 });
-                let size_check = if !ctx.info.sized {
-                    quote! {
-                        if data.len() < Self::DATA_MIN_SIZES[*tag as usize] {
-                            return Err(Error {
-                                kind: ErrorKind::InsufficientSize,
-                                pos: Self::DATA_OFFSET,
-                            });
-                        }
-                    }
-                } else {
-                    quote! {}
-                };
 
                 let data = if !ctx.info.sized {
                     // Walk exactly the bytes the view made by `ptr_from_bytes` covers.
@@ -81,8 +83,6 @@ fn validate_method(ctx: &Context, input: &DeriveInput) -> TokenStream {
 
                     let tag = { #validate_tag };
                     #data
-
-                    #size_check
 
                     match tag {
                         #variants
